@@ -35,6 +35,7 @@ type ldoc struct {
 	PW    float64
 	PHs   []float64 // page heights
 	pages [][]lline // top-down order on each page
+	rep   int       // cache of hasRepetition: 0 unknown, 1 yes, -1 no
 }
 
 func (d *ldoc) all() []lline {
@@ -122,7 +123,24 @@ func (d *ldoc) repeated(l lline) bool {
 
 // mayDelete is clause 2 of the statement: in a margin band AND (repeats at that position across pages OR page-number pattern).
 func (d *ldoc) mayDelete(l lline) bool {
+	if !d.hasRepetition() {
+		return false // clause 3: documents without repetition (1-page documents in particular) come back unchanged
+	}
 	return d.side(l) != "" && (d.repeated(l) || isPagePattern(l.text))
+}
+
+// hasRepetition: some marginal line repeats at its position on another page.
+func (d *ldoc) hasRepetition() bool {
+	if d.rep == 0 {
+		d.rep = -1
+		for _, l := range d.all() {
+			if d.repeated(l) {
+				d.rep = 1
+				break
+			}
+		}
+	}
+	return d.rep > 0
 }
 
 // whyNot classifies a forbidden deletion.
@@ -340,6 +358,7 @@ type expect struct {
 	class        string // class of an instance that may not be deleted (else of any instance)
 	mustClass    string
 	mayClass     string
+	maySide      string // band side of the removable instances (outcome labels only)
 }
 
 func (d *ldoc) expectations(mode string, req map[int]bool) map[string]*expect {
@@ -360,7 +379,7 @@ func (d *ldoc) expectations(mode string, req map[int]bool) map[string]*expect {
 		}
 		if may {
 			e.may++
-			e.mayClass = l.class
+			e.mayClass, e.maySide = l.class, d.side(l)
 		} else {
 			w := d.whyNot(l)
 			if e.why != "" && e.why != w {
